@@ -11,6 +11,19 @@
 (*     Sec-Websocket-Protocol values) x extension offers x                 *)
 (*     EnableCompression.  Full = FALSE restricts offers / Subprotocols to *)
 (*     five representatives each.                                          *)
+(*  Space = "ext": extension offers assembled from the RFC 7230 grammar    *)
+(*     on valid requests: a parameter whose value is a quoted-string       *)
+(*     BODY = pre . mid . post with quoted-pairs (escaped quote, escaped   *)
+(*     backslash), commas, semicolons, "=" and the text                    *)
+(*     "permessage-deflate" INSIDE the quotes, in elements before / after  *)
+(*     other elements, with and without a real permessage-deflate offer,   *)
+(*     one or two header lines x EnableCompression.  Full = FALSE: fewer   *)
+(*     element frames around the same bodies.                              *)
+(*  Both "core" spaces also contain the structured port variants of the    *)
+(*     origin clause: Host port {none, :80, :443, :8080} x Origin scheme   *)
+(*     {http, https, ws, wss} x Origin port {none, 80, 443, 8080} with the *)
+(*     same host name and no CheckOrigin ("host (with port)" is compared   *)
+(*     as text), alone and combined with one other deviation.              *)
 (* Header lines are code point sequences; the python concretiser varies    *)
 (* case, OWS, extra tokens and line splitting, keys, buffer sizes, pool,   *)
 (* HandshakeTimeout - the trace specification re-parses the actual bytes.  *)
@@ -83,8 +96,18 @@ Cfg(co, subsNil, subs, compress) ==
   [checkOrigin |-> co, subsNil |-> subsNil, subs |-> subs, compress |-> compress, hto |-> 0, errfn |-> FALSE,
    rbuf |-> 0, wbuf |-> 0, pool |-> FALSE, hsize |-> 4096, hwsize |-> 4096]
 
-Req(m, c, u, v, k, o, proto, ext) ==
-  [method |-> m, conn |-> c, upg |-> u, ver |-> v, key |-> k, host |-> Host0, origin |-> o, proto |-> proto, ext |-> ext]
+ReqH(m, c, u, v, k, h, o, proto, ext) ==
+  [method |-> m, conn |-> c, upg |-> u, ver |-> v, key |-> k, host |-> h, origin |-> o, proto |-> proto, ext |-> ext]
+Req(m, c, u, v, k, o, proto, ext) == ReqH(m, c, u, v, k, Host0, o, proto, ext)
+
+(* structured port variants of the origin clause: [host, origin] *)
+OrgP(scheme, y, port) == LET o == [present |-> TRUE, shape |-> "plain", scheme |-> scheme, y |-> y, port |-> port]
+                         IN o @@ [str |-> OriginString(o)]
+PHostPorts == {<< >>, <<58,56,48>>, <<58,52,52,51>>, <<58,56,48,56,48>>}
+POrgPorts  == {<< >>, <<56,48>>, <<52,52,51>>, <<56,48,56,48>>}
+PSchemes   == {<<104,116,116,112>>, <<104,116,116,112,115>>, <<119,115>>, <<119,115,115>>}
+PNames     == {<<Host0, Host0>>, <<Host0, <<69,88,65,77,80,76,69,46,116,101,115,116>>>>, <<<<49,50,55,46,48,46,48,46,49>>, <<49,50,55,46,48,46,48,46,49>>>>, <<<<91,58,58,49,93>>, <<91,58,58,49,93>>>>}
+PortVars == {[host |-> n[1] \o hp, origin |-> OrgP(sc, n[2], op)] : n \in PNames, hp \in PHostPorts, sc \in PSchemes, op \in POrgPorts}
 
 -----------------------------------------------------------------------------
 Dims == << Len(Methods), Len(ConnVars), Len(UpgVars), Len(VerVars), Len(KeyVars), Len(OriginVars), 2 >>
@@ -101,7 +124,16 @@ CoreProg(iv) ==
    rh  |-> IF iv[7] = 2 THEN RH(FALSE, TRUE, NoProto, << >>) ELSE NilRH,
    fault |-> NoFaultRec]
 
-IsCoreProgram(x) == \E iv \in IVs : x = CoreProg(iv)
+(* a port variant on a request with at most one other deviation (dimensions 1..5 and 7; CheckOrigin stays nil) *)
+PortProg(pv, iv) ==
+  [req |-> ReqH(Methods[iv[1]], ConnVars[iv[2]], UpgVars[iv[3]], VerVars[iv[4]], KeyVars[iv[5]], pv.host, pv.origin, << >>, << >>),
+   cfg |-> Cfg("nil", TRUE, << >>, FALSE),
+   rh  |-> IF iv[7] = 2 THEN RH(FALSE, TRUE, NoProto, << >>) ELSE NilRH,
+   fault |-> NoFaultRec]
+PortIVs == {Base} \cup (IF Full THEN UNION {{[Base EXCEPT ![d] = a] : a \in 1..Dims[d]} : d \in {1, 2, 3, 4, 5, 7}}
+                        ELSE {[Base EXCEPT ![1] = 2], [Base EXCEPT ![3] = 8], [Base EXCEPT ![5] = 2]})
+
+IsCoreProgram(x) == (\E iv \in IVs : x = CoreProg(iv)) \/ (\E pv \in PortVars : \E iv \in PortIVs : x = PortProg(pv, iv))
 
 -----------------------------------------------------------------------------
 P1 == <<99,104,97,116>>
@@ -167,5 +199,32 @@ IsNegoProgram(x) ==
           rh  |-> rh,
           fault |-> NoFaultRec]
 
-MCIsProgram(x) == IF Space = "core" THEN IsCoreProgram(x) ELSE IsNegoProgram(x)
+-----------------------------------------------------------------------------
+(* Space "ext": quoted-string parameter values.  The pieces are written as *)
+(* they appear on the wire (between the DQUOTEs); every concatenation      *)
+(* pre . mid . post is a well-formed quoted-string body.                   *)
+QPre  == { <<>>, <<97>>, <<97,92,34>>, <<92,92>>, <<92,34>>, <<97,92,92,92,34>> }       \* (empty)  a  a\"  \\  \"  a\\\"
+QMid  == { <<44,32,112,101,114,109,101,115,115,97,103,101,45,100,101,102,108,97,116,101>>, <<59,32,112,101,114,109,101,115,115,97,103,101,45,100,101,102,108,97,116,101>>, <<44,112,101,114,109,101,115,115,97,103,101,45,100,101,102,108,97,116,101,59,32,99,108,105,101,110,116,95,109,97,120,95,119,105,110,100,111,119,95,98,105,116,115>>,
+           <<112,101,114,109,101,115,115,97,103,101,45,100,101,102,108,97,116,101>>, <<61,112,101,114,109,101,115,115,97,103,101,45,100,101,102,108,97,116,101,44>> }
+QPost == { <<>>, <<44,32,98>>, <<92,34,44,32,98>>, <<44,32,98,92,34>>, <<59,32,99,61,100>> }
+QBodies == {a \o b \o c : a \in QPre, b \in QMid, c \in QPost}
+
+Quoted(b) == <<34>> \o b \o <<34>>
+(* element frames: what stands before and behind the quoted value *)
+QHeads == IF Full THEN { <<102,111,111,59,32,120,61>>, <<102,111,111,59,32,120,61,49,59,32,121,32,61,32>>, <<98,97,114,44,32,102,111,111,59,120,61>>, <<112,101,114,109,101,115,115,97,103,101,45,100,101,102,108,97,116,101,50,59,32,112,61>>, <<112,101,114,109,101,115,115,97,103,101,45,100,101,102,108,97,116,101,59,32,99,108,105,101,110,116,95,109,97,120,95,119,105,110,100,111,119,95,98,105,116,115,61>> }
+          ELSE { <<102,111,111,59,32,120,61>>, <<98,97,114,44,32,102,111,111,59,120,61>>, <<112,101,114,109,101,115,115,97,103,101,45,100,101,102,108,97,116,101,59,32,99,108,105,101,110,116,95,109,97,120,95,119,105,110,100,111,119,95,98,105,116,115,61>> }
+QTails == IF Full THEN { <<>>, <<44,32,98,97,114>>, <<59,32,122,61,49>>, <<32,59,122,61,34,113,34,44,32,98,97,114,59,32,119>>, <<44,32,112,101,114,109,101,115,115,97,103,101,45,100,101,102,108,97,116,101>> }
+          ELSE { <<>>, <<44,32,98,97,114>>, <<44,32,112,101,114,109,101,115,115,97,103,101,45,100,101,102,108,97,116,101>> }
+QLines == {h \o Quoted(b) \o t : h \in QHeads, b \in QBodies, t \in QTails}
+ExtOffers == {<< l >> : l \in QLines}
+             \cup (IF Full THEN {<< <<98,97,114>>, l >> : l \in QLines} ELSE {<< <<98,97,114>>, <<102,111,111,59,32,120,61>> \o Quoted(b) >> : b \in QBodies})
+
+IsExtProgram(x) ==
+  \E ex \in ExtOffers : \E cp \in (IF Full THEN BOOLEAN ELSE {TRUE}) :
+     x = [req |-> Req("GET", ConnVars[1], UpgVars[1], VerVars[1], KeyVars[1], OriginVars[1][2], << >>, ex),
+          cfg |-> Cfg("nil", TRUE, << >>, cp),
+          rh  |-> NilRH,
+          fault |-> NoFaultRec]
+
+MCIsProgram(x) == IF Space = "core" THEN IsCoreProgram(x) ELSE IF Space = "nego" THEN IsNegoProgram(x) ELSE IsExtProgram(x)
 =============================================================================
